@@ -189,6 +189,17 @@ func VerifH18c() {
 	seqs := verifBuild(&tx, n)
 	ids := append([]string{}, verifIDs[:n]...)
 	nextID := n
+	// the capacity of the search mirror is part of the state too: a key that once had many
+	// versions keeps a large backing array after they are collected (PopFront shifts in place).
+	// Any capacity >= length is reachable; tight, 64 and 1024 are tried.
+	if f := tx.File("k"); f != nil && !f.withoutSearch {
+		if c := []int{0, 64, 1024}[nd.Choice("mirror-capacity", 3)]; c > len(f.arr) {
+			arr := make([]*Node[model.File], len(f.arr), c)
+			copy(arr, f.arr)
+			f.arr = arr
+			nd.Reach("H18c.spare-capacity")
+		}
+	}
 	m := nd.Choice("m", M+1)
 	for step := 0; step < m; step++ {
 		f := tx.File("k")
@@ -372,4 +383,38 @@ func VerifRaceSelfTest() {
 	p.Release(y)
 	nd.JoinAll()
 	nd.Reach("selftest.end")
+}
+
+// VerifPoolSound: the free list of a pool holds no object twice and none of the given live
+// objects (an object that is both handed out and free would be handed out to a second owner).
+func VerifPoolSound[T any](p *Pool[T], live []*T) bool {
+	if p == nil {
+		return true
+	}
+	for i, e := range p.free {
+		for j := 0; j < i; j++ {
+			if p.free[j] == e {
+				return false
+			}
+		}
+		for _, l := range live {
+			if l == e {
+				return false
+			}
+		}
+	}
+	return true
+}
+
+// VerifNodes: the nodes of tx's list for key (at most 64).
+func VerifNodes(tx *Transaction, key string) []*Node[model.File] {
+	if tx == nil || tx.store == nil || tx.store[key] == nil || tx.store[key].l.root.next == nil {
+		return nil
+	}
+	f := tx.store[key]
+	var out []*Node[model.File]
+	for n := f.l.root.next; n != nil && n != &f.l.root && len(out) < 64; n = n.next {
+		out = append(out, n)
+	}
+	return out
 }
